@@ -26,7 +26,7 @@ CHECKS = {
          "the next regressor is fitted to and updates the incumbent, every array passed by the caller stays byte- and shape-identical - for "
          "generated sequences of propose / add (proposal, seeded point, near-duplicate, outlier) calls over d in {1,2,3}, 3-40 evaluations held, "
          "EI/UCB/max-variance/default acquisition, bfgs/differential evolution, 1-3 processes, with/without y_err, several input array forms, a second "
-         "optimiser interleaved, kappa changed on the live acquisition, read-only likelihood queries on the live regressor; the hyper-parameter "
+         "optimiser interleaved, kappa changed on the live acquisition, read-only likelihood queries on the live regressor, hyper-parameters set on the live regressor or given by the caller as array / list / tuple; the hyper-parameter "
          "limits of each refit must be those estimated from the current data. The formula clauses (EI both branches, UCB, max "
          "variance, value-and-gradient form) are pure functions of the regressor state; they are attached only as spot oracles at the states "
          "the histories reach (EI vs quadrature in log space, gradients vs two-step central differences). No coverage 'for all predictive "
@@ -44,7 +44,9 @@ CHECKS = {
          "Bonferroni). Layer C: variance ratio / mean offset of long chains, gross threshold 0.25, fine 6 se + 0.03. Layer D: calibration of "
          "the decisions over long runs (accepted minus sum of MH probabilities per proposal stratum, alarm at 6.5 sd) - needs no knowledge of "
          "which uniform a decision used (uniforms drawn in blocks leave layer A only the uphill rule). A-big: layer A once on 200 parameters / "
-         "212 walkers. Histories include exchanges, mass re-estimation and save/load with a second restored twin stepping in between. Known "
+         "212 walkers. Histories include exchanges, mass re-estimation, save/load with a second restored twin stepping in between, and a second sampler built "
+         "from the same input objects stepping in between; HMC reversibility is also probed through the public API only (a copy is handed the "
+         "proposed point by the worker loop and drawn the negated end momentum: its proposal must be the start point). Known "
          "findings F1 (retry-until-accept), F2 (reflected stretch), F4 (bounded HMC with matrix mass) are reported as KNOWN-FINDING."),
    design_ref="DESIGN.md 3.1",
    note="Trusted: harness targets (exact samplers/CDFs of pi^(1/T)); a decision is judged only when its uniform is identifiable in the history (else counted uninterpretable, layers B/C remain); statistical layers bound, not exclude, distributional error."),
@@ -56,7 +58,8 @@ CHECKS = {
          "Gibbs proposals equal the exact rational fold of the recorded raw draw; Bounds.reflect / reflect_momenta equal the exact "
          "fold incl. multi-wrap overshoots, identity inside, momentum factor -1 exactly for odd reflection counts; a bounded "
          "trajectory run forward, negated and run again returns to its start (diagonal mass). Histories include save/load, rejected limit "
-         "calls, the caller re-filling its start array, and starts outside the bounds (refused by the constructor or else monitored)."),
+         "calls, the caller re-filling its start array, starts outside the bounds (refused by the constructor or else monitored), and constructor "
+         "arguments passed positionally / as lists / read-only / non-contiguous arrays (float32 inputs excluded: tolerances are double precision)."),
    design_ref="DESIGN.md 3.3",
    note="Trusted: limits are only set where they contain the parameter's current value; reversibility is only demanded for scalar/vector mass (with a matrix mass component flips do not reverse the trajectory - see DESIGN.md, C01 finding)."),
  "C09": dict(
@@ -68,7 +71,8 @@ CHECKS = {
          "is compared sample for sample, so any tuning state lost by save/load surfaces as a divergence; every number under the attribute "
          "names the samplers themselves save (REPORTED_STATE) is compared original vs reloaded after every op; plotting / interval / "
          "marginal calls that work on the original must work on the reloaded object. Faults: tail draws, the posterior raising in the "
-         "middle of an advance (both samplers live through it, save right after). Known finding F5 is reported as KNOWN-FINDING."),
+         "middle of an advance (error, StopIteration or KeyboardInterrupt; both samplers live through it, save right after), argument "
+         "representations (float32 widths / starts, lists, positional). Known finding F5 is reported as KNOWN-FINDING."),
    design_ref="DESIGN.md 3.5",
    note="Trusted: generators are matched between original and reloaded object by attribute path; torn .npz writes are not injected."),
  "C15": dict(
@@ -81,7 +85,8 @@ CHECKS = {
          "per evaluation; ParallelTempering.advance / run_for inside the process simulation (cycle arithmetic, progress watch); "
          "histories include save/load, runs of thousands of steps, advances interrupted by a raising posterior (own exception type and "
          "StopIteration: an advance that returns normally added exactly m), positional run_for calls, budgets of days, pools built from "
-         "shared input objects and larger than the simulated core count. An evaluation budget per operation turns a non-terminating step "
+         "shared input objects and larger than the simulated core count; coarse clocks (readings that stay equal for 1 ms / 15.6 ms / 1 s) in "
+         "timed runs and plain advances, forward clock jumps also under ParallelTempering.run_for. An evaluation budget per operation turns a non-terminating step "
          "into a reported violation."),
    design_ref="DESIGN.md 3.7",
    note="Trusted: SimPool implements Pool.map (pickled jobs/results, FIFO queue, results in input order); progress/overshoot thresholds as stated in the evidence assumptions. Known finding F3 (proposal width / HMC step size overflow on flat posteriors) is reported as KNOWN-FINDING."),
@@ -93,7 +98,9 @@ CHECKS = {
          "array must be byte-identical to its snapshot, and each sampler of an interleaved group must reproduce its solo "
          "trajectory; read-only / diagnostic / plotting calls must leave the recorded chain and the generators unchanged. Histories include "
          "exchanges (also under the real ParallelTempering), save/load, the caller overwriting its start array, advances interrupted by a "
-         "raising posterior, integer-typed and zero-probability starts, 5-9 parameters, runs of thousands of steps. Exploration by seeded "
+         "raising posterior (error, StopIteration or KeyboardInterrupt), limits set / changed / cleared on a live chain (also away from its "
+         "current value), argument representations (positional, float32, list, read-only, non-contiguous, Fortran-ordered starts, numpy integer "
+         "counts), pairs handed out by get_interval, integer-typed and zero-probability starts, 5-9 parameters, runs of thousands of steps. Exploration by seeded "
          "search with shrinking and replay; evidence, not proof."),
    design_ref="DESIGN.md 3.2",
    note="Trusted: harness targets are pure functions; interleaving is at posterior-call granularity (the samplers are synchronous objects, there is no finer pre-emption point that touches shared state)."),
@@ -105,7 +112,8 @@ CHECKS = {
          "multiset (and the values the final fit of a unimodal estimate used, incl. one > 8000-value case), and for get_interval membership "
          "(with multiplicity) of (row, log-prob) pairs in the top fraction, count and 2-D shape; entries read out earlier must stay what "
          "they were when the chain grows (an exchange replaces the last entry only); read-outs and diagnostics leave the chain unchanged; "
-         "chains of more than 4096 rows, burn up to 2047, thin up to 333."),
+         "chains of more than 4096 rows, burn up to 2047, thin up to 333; numpy integer scalars as burn / thin / count / index; advances "
+         "interrupted by a raising posterior before the read-out."),
    design_ref="DESIGN.md 3.6",
    note="Trusted: the size of the 'top fraction' is n - int(n(1-f)) with one row of slack; with a sample count either the caller's thin or max(n_burned//count,1) is accepted."),
  "C08": dict(
@@ -116,7 +124,8 @@ CHECKS = {
          "re-tempering / untouched checks from return_chains() snapshots, provenance of every row added by advance(), "
          "digest equality of the returned chains across schedules, equal advancement, no deadlock, bounded shutdown; 1-10 chains, "
          "unsorted ladders, chains starting at log-density -inf, steep targets (exchange exponents in the thousands), start points sharing "
-         "one coordinate, single commands of 501-1501 steps, the caller mutating the chain list it passed, conservation stat jobs. "
+         "one coordinate, single commands of 501-1501 steps, the caller mutating the chain list it passed, fewer simulated cores than chains, "
+         "coarse clocks and forward wall-clock jumps during timed runs, conservation stat jobs. "
          "Sampling, not enumeration: a clean batch is evidence, not proof."),
    design_ref="DESIGN.md 3.4",
    note="Trusted: simkit kernel/transport implement the documented multiprocessing contract (FIFO per pipe, pickled payloads, blocking recv, timed poll, join); worker crashes and broken pipes are not injected."),
